@@ -155,6 +155,12 @@ func verifMgrOps(env *verifEnv, rng *rand.Rand) []verifMgrOp {
 		}
 		return nil
 	})
+	// a root the host does not store: every check of the manager passes, the store call fails half-way
+	commit("append-unknown-root", func(u *contracts.ContractUpdater) error {
+		u.AppendSector(free[0])
+		u.AppendSector(types.Hash256{0xee, 1})
+		return nil
+	})
 	a, b, nTrim := uint64(rng.Intn(len(roots0))), uint64(rng.Intn(len(roots0))), uint64(1+rng.Intn(len(roots0)-1))
 	commit("swap+trim+update", func(u *contracts.ContractUpdater) error {
 		if err := u.SwapSectors(a, b); err != nil {
@@ -195,6 +201,16 @@ func verifMgrOps(env *verifEnv, rng *rand.Rand) []verifMgrOp {
 			fc.FileMerkleRoot = rhp2.MetaRoot(newRoots)
 			verifSignV2(n, env, &fc)
 			return n.contracts.ReviseV2Contract(d0, fc, newRoots, proto4.Usage{Storage: sc(1), RiskedCollateral: sc(1)})
+		})
+		badRoots := append(append([]types.Hash256(nil), droots...), free[0], types.Hash256{0xee, 2})
+		add("contracts.Manager", "ReviseV2Contract", "unknown-root", func(n *verifNode) error {
+			fc := env.v2fc[d0]
+			fc.RevisionNumber += 2
+			fc.Filesize = uint64(len(badRoots)) * proto4.SectorSize
+			fc.Capacity = fc.Filesize
+			fc.FileMerkleRoot = rhp2.MetaRoot(badRoots)
+			verifSignV2(n, env, &fc)
+			return n.contracts.ReviseV2Contract(d0, fc, badRoots, proto4.Usage{Storage: sc(1), RiskedCollateral: sc(1)})
 		})
 		nfc := env.newV2(rng, 700, 800).V2FileContract
 		old := env.v2fc[d0]
@@ -373,10 +389,13 @@ func TestVerifC09Mgr(t *testing.T) {
 				t.Logf("reference run of %s: class %d: %v", full, refClass, refErr)
 			}
 			em.Step(call(fmt.Sprintf(" \"%s\" %d%%N None %d%%N", ref, refClass, op.tol)),
-				fmt.Sprintf("OMgr %d%%N \"%s\" %s", refClass, ref, coqBool(true)))
+				fmt.Sprintf("OMgr %d%%N \"%s\" %s", refClass, ref, coqBool(refClass == 0 || refCoh == "")))
 			em.Count("mgr-op:" + name)
-			if refCoh != "" {
+			if refCoh != "" && refClass == 0 {
 				em.Count("incoherent-after-success:" + name)
+			} else if refCoh != "" {
+				// the operation failed by itself (no injected fault): the cache must not have moved
+				em.Monitor("cache-differs-from-store-after-failed-call:"+name, fmt.Sprintf("%s (%v): %s", full, refErr, refCoh))
 			}
 			n := verifEligible(ref)
 			fn := open("fault")
